@@ -109,6 +109,15 @@ func specSx(alg string, sizeOf *big.Int, curveAttr, curveTok string, meta []kv, 
 
 var noSpec Sx = SL{}
 
+// specEC: an elliptic-curve key. No Size is required, but if one is shown it must be fieldBits.
+func specEC(alg string, fieldBits int, curveTok string) Sx {
+	curve := SL{}
+	if curveTok != "" {
+		curve = SL{S("Curve"), S(curveTok)}
+	}
+	return SL{S(alg), SL{I(fieldBits)}, curve, SL{}, SL{}}
+}
+
 // ---------- oracles: what asn1.Unmarshal returned ----------
 
 // children returns the content octets of the elements of the outer constructed value.
@@ -250,7 +259,7 @@ type emitted struct {
 	framed  []byte
 }
 
-func (g *c02) der(op, tag string, der []byte, spec Sx) {
+func (g *c02) der(op, tag string, der []byte, spec Sx) Sx {
 	d := derOps[op]
 	in := SL{SB(der), d.oracle(der), spec}
 	g.c.Emit(op+":"+tag, in, infoObs(func() (file.Info, error) { return d.parse(der) }))
@@ -268,6 +277,36 @@ func (g *c02) der(op, tag string, der []byte, spec Sx) {
 			g.valid = append(g.valid, raw)
 		}
 	}
+	return in
+}
+
+// derFramed: the parser on its own and, always, the same bytes through file.Inspect as a PEM block
+// and as a bare DER file.
+func (g *c02) derFramed(op, tag string, der []byte, spec Sx) {
+	in := g.der(op, tag, der, spec)
+	d := derOps[op]
+	g.e2e(emitted{op: op, tag: tag + "-pem", input: in, fname: "key.pem", framed: pem.EncodeToMemory(&pem.Block{Type: d.pem, Bytes: der})})
+	g.e2e(emitted{op: op, tag: tag + "-der", input: in, fname: "key.der", framed: der})
+}
+
+// multi-prime RSA private keys: version 1 with 1 or 2 otherPrimeInfos (3 or 4 primes)
+func (g *c02) multiPrime(tag string, bits, primes int) {
+	r := g.c.R
+	k := genRSA(r, bits, 4)
+	var others []otherPrime
+	for i := 2; i < primes; i++ {
+		h := bits / primes
+		others = append(others, otherPrime{randBits(r, h, 4), randBits(r, h-1, 4), randBits(r, h-1, 4)})
+	}
+	priv := rsaPrivates(k)
+	for _, o := range others {
+		priv = append(priv, o.R.Bytes(), o.D.Bytes(), o.T.Bytes())
+	}
+	spec := specSx("RSA", k.N, "", "", nil, priv)
+	inner := pkcs1PrivMulti(k, others)
+	g.derFramed("pkcs1priv", tag, inner, spec)
+	g.derFramed("pkcs8", "rsa-"+tag, pkcs8Wrap(oidRSA, inner), spec)
+	g.der("spki", "rsa-"+tag, spkiRSA(k), specSx("RSA", k.N, "", "", nil, nil))
 }
 
 // ---------- SSH ----------
@@ -594,10 +633,33 @@ func (g *c02) certKeys() {
 // material from the committed pool, packets by the writer of pgpw.go) through file.Inspect;
 // observation = description and the Algorithm / Size / Curve attributes of the primary key.
 func (g *c02) pgpkey(tag string, primary *pkey, n *big.Int, alg string, sub *Rng) {
+	g.pgpEntity(tag, primary, specSx(alg, n, "", "", nil, nil), nil, nil, sub)
+}
+
+func pgpFacts(i file.Info) file.Info {
+	out := file.Info{Description: i.Description}
+	for _, a := range i.Attributes {
+		if a.Name == "Algorithm" || a.Name == "Size" || a.Name == "Curve" {
+			out.Attributes = append(out.Attributes, a)
+		}
+	}
+	return out
+}
+
+// pgpEntity: primary key, one user ID with a verifying self-signature, encryption subkeys with
+// verifying binding signatures; one spec per key (primary first).
+func (g *c02) pgpEntity(tag string, primary *pkey, pspec Sx, subs []*pkey, sspecs []Sx, sub *Rng) {
 	b := newEnt(primary, false, sub, func() int { return 0 })
 	id := b.uid("C02 " + tag + " <c02@example.org>")
 	o := selfSigOpts(primary, 8, primary.created+60, 0x03, nil)
 	b.cert(id, nil, o, true)
+	bodies := SL{SB(primary.body())}
+	specs := SL{pspec}
+	for i, sk := range subs {
+		b.subkey(sk, bindingOpts(primary, 8, sk.created+60, 0x0c, nil), false, false, nil)
+		bodies = append(bodies, SB(sk.body()))
+		specs = append(specs, sspecs[i])
+	}
 	g.nfile++
 	d := filepath.Join(g.dir, fmt.Sprintf("p%d", g.nfile))
 	os.MkdirAll(d, 0o755)
@@ -615,16 +677,16 @@ func (g *c02) pgpkey(tag string, primary *pkey, n *big.Int, alg string, sub *Rng
 		if !strings.HasPrefix(i.Description, "GPG/PGP") {
 			return ObsErr()
 		}
-		var facts []file.Attribute
-		for _, a := range i.Attributes {
-			if a.Name == "Algorithm" || a.Name == "Size" || a.Name == "Curve" {
-				facts = append(facts, a)
+		out := pgpFacts(i)
+		for _, ch := range i.Children {
+			if ch.Description == "GPG/PGP subkey" {
+				out.Children = append(out.Children, pgpFacts(ch))
 			}
 		}
-		return ObsOk(InfoSx(file.Info{Description: i.Description, Attributes: facts}))
+		return ObsOk(InfoSx(out))
 	})
 	os.RemoveAll(d)
-	g.c.Emit("pgpkey:"+tag, SL{SB(primary.body()), specSx(alg, n, "", "", nil, nil)}, obs)
+	g.c.Emit("pgpkey:"+tag, SL{bodies, specs}, obs)
 }
 
 func (g *c02) pgpKeys() {
@@ -638,6 +700,30 @@ func (g *c02) pgpKeys() {
 	for i, e := range pgpPool.DSA {
 		sub := NewRng(uint64(0xC02D00 + i))
 		g.pgpkey(fmt.Sprintf("dsa-%d", e.L), newDSAKey(i, 1500000100+uint32(i), sub), hexBig(e.P), "DSA", sub)
+	}
+	// elliptic-curve keys: ECDSA primaries with ECDH subkeys over the same curve and over Curve25519, EdDSA
+	type cv struct {
+		oid  []byte
+		name string
+		bits int
+		kdf  []byte
+	}
+	for i, c := range []cv{{oidP256, "P-256", 256, kdfSHA256AES128}, {oidP384, "P-384", 384, []byte{3, 1, 9, 8}}, {oidP521, "P-521", 521, []byte{3, 1, 10, 9}}} {
+		sub := NewRng(uint64(0xC02E00 + i))
+		t := 1500000200 + uint32(i)
+		g.pgpEntity("ecdsa-"+c.name, newECKey(c.oid, 19, t, sub, nil), specEC("ECDSA", c.bits, c.name),
+			[]*pkey{newECKey(c.oid, 18, t+1, sub, c.kdf), newCv25519Key(t+2, sub, kdfSHA256AES128)},
+			[]Sx{specEC("ECDH", c.bits, c.name), specEC("ECDH", 255, "")}, sub)
+	}
+	{
+		sub := NewRng(0xC02ED)
+		g.pgpEntity("eddsa", newEdDSAKey(1500000300, sub), specEC("EdDSA", 255, "Ed25519"),
+			[]*pkey{newCv25519Key(1500000301, sub, kdfSHA256AES128), newECKey(oidP521, 18, 1500000302, sub, []byte{3, 1, 10, 9})},
+			[]Sx{specEC("ECDH", 255, ""), specEC("ECDH", 521, "P-521")}, sub)
+		e := pgpPool.RSA[7]
+		n := new(big.Int).Mul(hexBig(e.P), hexBig(e.Q))
+		g.pgpEntity("rsa-with-ecdh-p521", newRSAKey(7, 1, 1500000310), specSx("RSA", n, "", "", nil, nil),
+			[]*pkey{newECKey(oidP521, 18, 1500000311, sub, []byte{3, 1, 10, 9})}, []Sx{specEC("ECDH", 521, "P-521")}, sub)
 	}
 }
 
@@ -1175,6 +1261,13 @@ func genC02(c *Ctx) {
 		n := new(big.Int).Mul(hexBig(e.P), hexBig(e.Q))
 		g.pgpkey("corpus-rsa-1025", newRSAKey(1, 1, 1500000000), n, "RSA", NewRng(0xC02))
 	}
+	// a three-prime RSA private key (RSAPrivateKey version 1) is an RSA key of its modulus' size
+	g.multiPrime("corpus-multi3-1031", 1031, 3)
+	// OpenPGP: an ECDSA key over P-521 has no other size than 521
+	{
+		sub := NewRng(0xC02521)
+		g.pgpEntity("corpus-ecdsa-P-521", newECKey(oidP521, 19, 1500000400, sub, nil), specEC("ECDSA", 521, "P-521"), nil, nil, sub)
+	}
 	g.valid = nil
 
 	// ---- fixtures of the repository ----
@@ -1248,6 +1341,9 @@ func genC02(c *Ctx) {
 	g.cryptoKeys()
 	g.certKeys()
 	g.pgpKeys()
+	for i, l := range []int{1023, 1024, 1031, 2047, 2048, 3073} {
+		g.multiPrime(fmt.Sprintf("multi%d-%d", 3+i%2, l), l, 3+i%2)
+	}
 
 	// ---- PKCS#8 / SPKI with an algorithm the describers do not know: nothing is claimed ----
 	g.der("pkcs8", "unknown-alg", derSeq(derSmall(0), derSeq(derOID(1, 2, 840, 113549, 1, 1, 10)), derOctets(r.Bytes(40))), noSpec)
